@@ -149,7 +149,12 @@ def case_root(drv, seed, index, subset, names, varmode, res):
         if "ok" not in created:
             problems.append("creating the envelope from the rendered template failed: " + created["err"])
         else:
-            parsed = suitio.model_parse(drv, bytes.fromhex(created["ok"]))["ok"]
+            parsed = suitio.model_parse(drv, bytes.fromhex(created["ok"])).get("ok")
+            if parsed is None:
+                parsed = suitio.impl_parse(bytes.fromhex(created["ok"])).get("ok")
+            if parsed is None:
+                problems.append("the envelope created from the rendered template cannot be parsed back")
+                return {"problems": problems, "mismatch": mismatch, "hash": f"unparsable:{index}"}
             comps = walk_manifest(parsed, problems, "root")
             # installed-manifest class ids are those of the configured names
             exp = [cid(dv, dc)] * ("radio" in subset) + [cid(av, ac)] * ("application" in subset) + [cid("nordicsemi.com", "nRF54H20_nordic_top")] * ("top" in subset)
@@ -204,7 +209,12 @@ def case_top(drv, seed, index, varmode):
         if "ok" not in created:
             problems.append("creating the envelope from the rendered top template failed: " + created["err"])
         else:
-            parsed = suitio.model_parse(drv, bytes.fromhex(created["ok"]))["ok"]
+            parsed = suitio.model_parse(drv, bytes.fromhex(created["ok"])).get("ok")
+            if parsed is None:
+                parsed = suitio.impl_parse(bytes.fromhex(created["ok"])).get("ok")
+            if parsed is None:
+                problems.append("the envelope created from the rendered template cannot be parsed back")
+                return {"problems": problems, "mismatch": mismatch, "hash": f"unparsable:{index}"}
             comps = walk_manifest(parsed, problems, "top")
             got = [bytes.fromhex(c[1]["raw"]) for c in comps[1:]]
             if got != [cid("nordicsemi.com", "nRF54H20_sec"), cid("nordicsemi.com", "nRF54H20_sys")]:
